@@ -248,6 +248,8 @@ def apply(ctx, W):
             ("res is Ok && !packed ==> offsets_aligned_upto(regions@, regions@.len() as int, &semantic.type_registry)", ("C01", "C03"), "alignment-offsets"),
             ("res is Ok && !packed ==> aligns_le(regions@, res->Ok_0.0, &semantic.type_registry)", ("C02", "C03"), "alignment-lower-bound"),
             ("res is Ok && !packed ==> res->Ok_0.0 > 0 && size % res->Ok_0.0 == 0", ("C02", "C03"), "alignment-divides-size"),
+            ("res is Ok ==> alignment_accepts(packed, align, regions@, size, &semantic.type_registry)", ("C03",), "alignment-accepted-only-if"),
+            ("res is Err ==> !alignment_accepts(packed, align, regions@, size, &semantic.type_registry)", ("C03",), "no-spurious-alignment-rejection"),
         ])
     closure_annot(ctx, fw, u7, closure_of_call(fw, b, "then", 2), ret="o: Option<usize>", requires=["regions@.len() == 1"],
                   ensures=["o == ty_align(regions@[0].type_ref, &semantic.type_registry)"], tags=("C02",))
@@ -264,6 +266,7 @@ def apply(ctx, W):
     ghost(ctx, fw, u7, before(fw, l_align), "proof { lemma_sum_empty(&semantic.type_registry); assert(regions@.take(0) =~= Seq::<Region>::empty()); }")
     rules.for_to_index_loop(ctx, fw, u7, l_align, seq="regions", ivar="i_r")
     rules.index_loop_spec(ctx, fw, u7, l_align, tags=("C01", "C03"), invariants=[
+        ("!packed", ("C03",)),
         ("all_sized(regions@, &semantic.type_registry)", ("C01",)),
         ("size == sum_sizes(regions@, &semantic.type_registry)", ("C01",)),
         ("last_address == offset_of(regions@, i_r as int, &semantic.type_registry)", ("C01", "C03")),
@@ -276,6 +279,11 @@ def apply(ctx, W):
                 }""")
 
     ghost(ctx, fw, u7, rules.body_stmts(fw, l_align)[-1]["span"][0], "proof { lemma_off_aligned(last_address, alignment); }")
+    ifs_in = [n for n in fw.in_fn(b, ("if",)) if l_align["body_span"][0] <= n["span"][0] < l_align["body_span"][1]]
+    if len(ifs_in) != 2:
+        raise rules.WeaveError("build: the per-field alignment loop no longer has two rejection tests")
+    for n in ifs_in:
+        ghost(ctx, fw, u7, n["then_span"][0] + 1, "proof { lemma_not_aligned(regions@, i_r - 1, &semantic.type_registry); }")
     ghost(ctx, fw, u7, after(fw, l_align), """proof {
                 let reg = &semantic.type_registry;
                 let vals = Seq::new(regions@.len(), |i: int| ty_align(regions@[i].type_ref, reg));
